@@ -12,6 +12,7 @@ import (
 	"fmt"
 	"sort"
 	"sync"
+	"time"
 )
 
 // Point is one recorded choice point of an execution.
@@ -381,4 +382,32 @@ func Yield(site string, write bool) {
 	if s := Active; s != nil {
 		s.yield(site, write)
 	}
+}
+
+// ---- wall clock seam ---------------------------------------------------------
+
+// FakeNow switches the repository's time.Now() calls (rewritten to Now by the instrumenter) to a synthetic clock that
+// jumps by more than an hour on every reading, so that any wall-clock value that leaks into an output makes two
+// otherwise identical executions differ.
+var FakeNow bool
+
+var nowReadings int64
+var nowMu sync.Mutex
+
+// NowReadings reports how many times the repository read the wall clock since the process started.
+func NowReadings() int64 {
+	nowMu.Lock()
+	defer nowMu.Unlock()
+	return nowReadings
+}
+
+func Now() time.Time {
+	nowMu.Lock()
+	nowReadings++
+	n := nowReadings
+	nowMu.Unlock()
+	if !FakeNow {
+		return time.Now()
+	}
+	return time.Date(2031, 1, 1, 0, 0, 0, 0, time.UTC).Add(time.Duration(n) * 3661 * time.Second)
 }
